@@ -143,6 +143,8 @@ def _step(Stream, pool, op):
         return {"new": [len(pool) - 1]}
     if o == "skip":
         r = s.skip(op["n"])
+    elif o == "skipc":          # any count as written: inf / -inf / nan / None are refused LAZILY, inside the generator
+        r = s.skip(_cnt(op["n"]))
     elif o == "limit":
         r = s.limit(op["n"])
     elif o == "append":
@@ -177,6 +179,16 @@ def _count(rng):
     return {"t": "int", "v": rng.choice([-1, 0, 1, 1, 2, 2, 3, 4, 6, 9])}
 
 
+def _skip_count(rng):
+    r = rng.random()
+    if r < 0.6:
+        return {"t": rng.choice(["inf", "ninf", "nan", "none"])}
+    if r < 0.8:
+        from common import enc
+        return {"t": "flt", "v": enc(rng.choice([-1.5, -0.5, 0.5, 1.5, 2.5, 3.5, 0.4, 1.6]))}
+    return {"t": "int", "v": rng.choice([-2, 0, 1, 2, 4])}
+
+
 def history(rng, length, copies):
     ops, alive, total = [], [], 0
     for _ in range(length):
@@ -187,7 +199,7 @@ def history(rng, length, copies):
             continue
         i = rng.choice(alive)
         o = rng.choice(["take"] * 5 + ["next"] * 3 + ["map"] * 3 + ["filter"] * 2 + ["skip"] * 2 + ["limit"] * 2 +
-                       ["append", "drain", "attr", "attr", "nextattr"] + (["peek"] * 3 + ["copy"] * 2 if copies else []))
+                       ["append", "drain", "attr", "attr", "nextattr", "skipc"] + (["peek"] * 3 + ["copy"] * 2 if copies else []))
         if o in ("take", "peek"):
             op = {"op": o, "i": i, "n": _count(rng)}
             if op["n"]["t"] == "none" and rng.random() < 0.5:
@@ -196,6 +208,8 @@ def history(rng, length, copies):
                 op["ctor"] = "tuple"
         elif o in ("skip", "limit"):
             op = {"op": o, "i": i, "n": rng.choice([0, 1, 1, 2, 3, 5])}
+        elif o == "skipc":
+            op = {"op": o, "i": i, "n": _skip_count(rng)}
         elif o == "append":
             op = {"op": o, "i": i, "es": _events(rng, rng.randint(0, 4), 0.2)}
         elif o == "map":
@@ -235,7 +249,9 @@ def tally(eng, case, io):
         o = op["op"]
         eng.count("x_op", o + (" " + ATTR_NAMES[op["g"]] if o == "attr" else ""))
         i = op.get("i")
-        if o in ("map", "filter", "skip", "limit", "append", "attr", "copy") and "err" not in ob:
+        if o == "skipc":
+            eng.count("x_skip_count_as_written", op["n"]["t"] + (" (refused lazily)" if op["n"]["t"] in ("inf", "ninf", "nan", "none") else ""))
+        if o in ("map", "filter", "skip", "skipc", "limit", "append", "attr", "copy") and "err" not in ob:
             wrappers.setdefault(i, []).append(o)
         if o == "attr" and "new" in ob:
             wrappers[ob["new"][0]] = wrappers.get(i, []) + ["attr"]
